@@ -2154,6 +2154,29 @@ def text_method(recv, method, args):
         if method in ('strip', 'rstrip'):
             b = _len(raw) - _strip_side(items[a:], chars, False)
         return recv[a:b] if b > a else ''
+    if method in ('split', 'partition') and _len(args) == 1 and type(args[0]) is _str and _len(args[0]) == 1 \
+            and not has_placeholder(args[0]):
+        sep = args[0]
+        chars = Engine.cur.registry.get('chars', [])
+        if sep in '-0123456789abcdefABCDEF' and any(not (CHAR_BASE <= _ord(c) < CHAR_BASE + _len(chars)) and has_placeholder(c)
+                                                     for c in recv):
+            raise Inconclusive('str.%s(%r) over digit placeholders' % (method, sep))
+        parts, cur = [], []
+        for k, ch in enumerate(recv):
+            o = _ord(ch)
+            is_sep = (ch == sep) if not (CHAR_BASE <= o < CHAR_BASE + _len(chars)) \
+                else E().branch(chars[o - CHAR_BASE] == _ord(sep))
+            if is_sep:
+                if method == 'partition':
+                    return (''.join(cur), sep, recv[k + 1:])
+                parts.append(''.join(cur))
+                cur = []
+            else:
+                cur.append(ch)
+        if method == 'partition':
+            return (recv, '', '')
+        parts.append(''.join(cur))
+        return parts
     if method == 'replace' and _len(args) == 2 and type(args[0]) is _str and type(args[1]) is _str \
             and _len(args[0]) == 1 and not has_placeholder(args[0]) and not has_placeholder(args[1]):
         old, new = args
